@@ -271,6 +271,19 @@ def toRs : List Node → List RNode
   | x :: xs => toR x :: toRs xs
 end
 
+/-- the child counts `emitFragment` accepts for a node type (`Writer.GoNode.ok`) -/
+def shapeOk (t k : Nat) : Bool :=
+  if t == 24 || t == 25 then 1 ≤ k
+  else if 26 ≤ t && t ≤ 32 then k == 1
+  else if t == 33 then k == 1 || k == 2
+  else if t == 34 then k == 2 || k == 3
+  else k == 0 && ((3 ≤ t && t ≤ 23) || t == 41 || t == 42 || (43 ≤ t && t ≤ 46))
+
+/-- a node of a shape the writer rejects becomes Empty (never happens on the trees the reducer builds: the
+    reused functions return alternations / concatenations with at least two children and leave wrapped
+    nodes alone; it makes `fromR` land in the writer's domain for EVERY `RNode`) -/
+def fixShape (x : Node) : Node := if shapeOk x.t x.kids.length then x else bareNode 23 x.o
+
 def cloopType (k : LK) (p : CP) : Nat :=
   (match p with | .one _ => 0 | .notone _ => 1 | .set _ => 2) +
   (match k with | .greedy => 3 | .lzy => 6 | .atomic => 43)
@@ -284,7 +297,7 @@ def cpNode (t o : Nat) (p : CP) (m n : Int) : Node :=
 /-- a wrapped node from its tag and the `Node` of its payload -/
 def unwrap (tag : Nat) (payload : Node) : Node :=
   let g := unpackTag tag
-  .mk g.t g.o 0 [] none g.m g.n (payload.kids.take g.arity)
+  fixShape (.mk g.t g.o 0 [] none g.m g.n (payload.kids.take g.arity))
 
 mutual
 /-- `RNode → Node` (total; `fromR (toR x) = x` on the nodes the reducer meets) -/
@@ -301,14 +314,14 @@ def fromR : RNode → Node
     if isTag o then
       match fromRs cs with
       | [x] => x
-      | ks => .mk 24 0 0 [] none 0 0 ks
-    else .mk 24 o 0 [] none 0 0 (fromRs cs)
+      | ks => fixShape (.mk 24 0 0 [] none 0 0 ks)
+    else fixShape (.mk 24 o 0 [] none 0 0 (fromRs cs))
   | .cat o cs =>
     if isTag o then
       match fromRs cs with
       | [x] => unwrap o x
-      | ks => .mk 25 0 0 [] none 0 0 ks
-    else .mk 25 o 0 [] none 0 0 (fromRs cs)
+      | ks => fixShape (.mk 25 0 0 [] none 0 0 ks)
+    else fixShape (.mk 25 o 0 [] none 0 0 (fromRs cs))
   | .loop lzy lo hi b => .mk (if lzy then 27 else 26) 0 0 [] none lo (nOf hi) [fromR b]
   | .cap g b => .mk 28 0 0 [] none g (-1) [fromR b]
   | .look bh ng b => .mk (if ng then 31 else 30) (if bh then 64 else 0) 0 [] none 0 0 [fromR b]
@@ -754,6 +767,17 @@ def fuelFor (x : Node) : Nat := 6 * nodeSize x + 64
 def reduceRoot (orc : Orc) (on : Bool) (root : Node) : Node :=
   let fuel := fuelFor root
   finalOptimize orc on fuel (reduceKids orc on fuel root)
+
+/-! ## Well-formedness of a `Node` tree (what `emitFragment` accepts) -/
+
+mutual
+/-- known node types with the child counts the writer expects, everywhere in the tree -/
+def okN : Node → Bool
+  | .mk t _ _ _ _ _ _ kids => shapeOk t kids.length && okNs kids
+def okNs : List Node → Bool
+  | [] => true
+  | x :: xs => okN x && okNs xs
+end
 
 /-! ## To the writer's tree -/
 
